@@ -1,4 +1,5 @@
 """C13 - sampled variable sets are complete and dependent values are consistent."""
+import itertools
 import math
 
 import numpy as np
@@ -8,7 +9,7 @@ from vlib.core import Part, Violation, Discard, call, watchdog
 from vlib import exprgen as X
 from vlib.models import make_recorder
 
-from mitxgraders import FormulaGrader, MatrixGrader, RealInterval, DependentSampler, RealVectors, DiscreteSet
+from mitxgraders import ListGrader, FormulaGrader, MatrixGrader, RealInterval, DependentSampler, RealVectors, DiscreteSet
 from mitxgraders.exceptions import ConfigError, MITxError
 from mitxgraders.sampling import gen_symbols_samples, set_seed
 
@@ -388,6 +389,102 @@ def judge(spec, rec):
             'formulas': {nd['name']: X.render(nd['tree']) for nd in spec['nodes'] if nd['kind'] == 'dep'}}
 
 
+
+# ----------------------------------------------------------------------------------------------------
+# part 'siblings': in an ordered ListGrader the other boxes' submissions are dependent variables (sibling_k) of a box's
+# sample; they may feed comparer parameters, DependentSamplers of declared variables and of numbered-variable base names
+
+SIB_FORMS = ['x^2', 'x+y', '2*x', 'x*y+1', 'y^2-x', '3', 'x']
+
+
+def _sib_eval(form, x, y):
+    return {'x^2': x * x, 'x+y': x + y, '2*x': 2 * x, 'x*y+1': x * y + 1, 'y^2-x': y * y - x, '3': 3.0, 'x': x}[form]
+
+
+def items_siblings(tier):
+    # where the sibling reference sits (any non-empty subset of the three places) x which sibling x box count x forms
+    for places in itertools.product((0, 1), repeat=3):
+        if not any(places):
+            continue
+        for nbox in (2, 3, 4):
+            for target in range(nbox):                 # the box whose samples are recorded
+                others = [k for k in range(nbox) if k != target]
+                for ref in others:
+                    for fi in range(len(SIB_FORMS)):
+                        yield {'places': list(places), 'nbox': nbox, 'target': target, 'ref': ref,
+                               'forms': [SIB_FORMS[(fi + 2 * k) % len(SIB_FORMS)] for k in range(nbox)],
+                               'samples': 1 + (fi + nbox) % 3, 'seed': 100 * nbox + 10 * target + fi}
+
+
+def judge_siblings(spec, rec):
+    in_params, in_plain_dep, in_numbered_dep = spec['places']
+    nbox, target, ref = spec['nbox'], spec['target'], spec['ref']
+    sib = 'sibling_%d' % (ref + 1)
+    sink = []
+    sample_from = {'x': RealInterval([1, 2]), 'y': RealInterval([3, 4])}
+    variables = ['x', 'y']
+    params = ['x', 'y']
+    if in_plain_dep:
+        variables.append('d')
+        sample_from['d'] = DependentSampler(formula='%s+x' % sib)
+        params.append('d')
+    if in_numbered_dep:
+        sample_from['a'] = DependentSampler(formula='%s*2+y' % sib)
+        params.append('a_{7}')
+    else:
+        sample_from['a'] = RealInterval([20, 21])
+        params.append('a_{7}')
+    if in_params:
+        params.append(sib)
+    sub = FormulaGrader(variables=variables, numbered_vars=['a'], sample_from=sample_from, samples=spec['samples'])
+    answers = [f for f in spec['forms']]
+    answers[target] = {'comparer_params': params, 'comparer': make_recorder(sink)}
+    kind, g = call(ListGrader, answers=answers, subgraders=sub, ordered=True)
+    if kind == 'err':
+        if isinstance(g, MITxError):
+            raise Violation('valid-configuration-refused', 'ListGrader with sibling references: %s: %s' % (type(g).__name__, g))
+        raise g
+    inputs = list(spec['forms'])
+    inputs[target] = 'x+y'
+    set_seed(spec['seed'])
+    with watchdog(10):
+        kind, out = call(g, None, inputs)
+    rec.calls()
+    if kind == 'err':
+        if isinstance(out, MITxError):
+            raise Violation('valid-configuration-raised', 'sibling mode (reference in %s) raised %s: %s' % (
+                [n for n, f in zip(('comparer_params', 'dependent variable', 'numbered base sampler'), spec['places']) if f],
+                type(out).__name__, str(out)[:300]))
+        raise out
+    if len(sink) != spec['samples']:
+        raise Violation('sample-count', 'comparer saw %d samples, configured %d' % (len(sink), spec['samples']))
+    for k, (vals, stu) in enumerate(sink):
+        sd = dict(zip(params, vals))
+        x, y = sd['x'], sd['y']
+        if not (1 <= x <= 2 and 3 <= y <= 4):
+            raise Violation('independent-out-of-set', 'sibling sample %d: x=%r y=%r' % (k, x, y))
+        sv = _sib_eval(inputs[ref], x, y)
+        want = {'d': sv + x, sib: sv}
+        if in_numbered_dep:
+            want['a_{7}'] = sv * 2 + y
+        for nm, w in want.items():
+            if nm in sd and (not isinstance(sd[nm], (int, float)) or abs(sd[nm] - w) > 1e-9 * max(1, abs(w))):
+                raise Violation('dependent-inconsistent', 'sibling sample %d: %s = %r but %s = %r evaluates to %r on the same '
+                                'sample, so it should be %r' % (k, nm, sd[nm], sib, inputs[ref], sv, w))
+        if not in_numbered_dep and not (20 <= sd['a_{7}'] <= 21):
+            raise Violation('numbered-instance-out-of-base-set', 'a_{7} = %r not in [20,21]' % (sd['a_{7}'],))
+        if abs(stu - (x + y)) > 1e-9:
+            raise Violation('student-evaluated-on-other-sample', 'student x+y evaluated to %r, sample gives %r' % (stu, x + y))
+    for nm, f in zip(('params', 'plain-dependent', 'numbered-base'), spec['places']):
+        if f:
+            rec.cls('sibling-in/' + nm)
+    if spec['places'] == [0, 0, 1]:
+        rec.cls('sibling-only-in-numbered-base-sampler')
+    rec.nontrivial()
+    return {'samples': len(sink)}
+
+
 PARTS = [
+    Part('siblings', 'enum', judge_siblings, items=items_siblings, exhaustive=True),
     Part('dags', 'hyp', judge, strategy=lambda tier: specs(), budget={'quick': 3000, 'thorough': 60000}),
 ]
